@@ -151,7 +151,7 @@ pub fn add_bystander(d: &Draw, w: &Arc<World>, srv: &ServerCfg, dir: &std::path:
     let mut xc = XferCfg::new(srv.addr(), "side.bin");
     xc.resend_request = false;
     let (p, c) = w.add_peer(Box::new(Reader::new(xc)), srv.v6, 0);
-    let at = 10 * MS + d.range("bystander.start_us", 4000) as Ns * 1000;
+    let at = 10 * MS + d.range("bystander.start_us", 1500) as Ns * 1000;
     ((p, at), XferSpec { client: c, peer: p, kind: Kind::Download, content: side, path, conformant: true, dally: true, timeout_ratio: 1 })
 }
 
@@ -292,6 +292,7 @@ pub fn xfer(prop: &'static str, tier: Tier, w: &Arc<World>) -> Scn {
         oc0.opts = vec![("blksize".into(), b.to_string()), ("windowsize".into(), wz.to_string())];
         oc0.b = b;
         oc0.w = wz;
+        oc0.tmo_s = 5;
         len = d.pick("swarm.big.len", &[(1usize << 20) + 1000, 1_300_000, (2 << 20) + 5, (1 << 20) - 1]);
     }
     let mut full_window = false;
@@ -301,8 +302,20 @@ pub fn xfer(prop: &'static str, tier: Tier, w: &Arc<World>) -> Scn {
         oc0.opts = vec![("blksize".into(), "8".into()), ("windowsize".into(), "65535".into())];
         oc0.b = 8;
         oc0.w = 65535;
+        oc0.tmo_s = 5;
         len = 65535 * 8 + d.pick("swarm.full_window.extra", &[3usize, 0, 8, 19]);
         full_window = true;
+    }
+    let mut wrap_class = false;
+    if prop == "C04" && d.chance("swarm.wrap_class", 1, if tier == Tier::Thorough { 700 } else { 2500 }) {
+        // "the loss of any one DATA or ACK" also holds for the datagrams that carry block numbers 65535, 0, 1
+        let wz = d.pick("swarm.wrap.windowsize", &[16u64, 1, 2, 4, 64, 3, 4096]);
+        oc0.opts = vec![("blksize".into(), "8".into()), ("windowsize".into(), wz.to_string())];
+        oc0.b = 8;
+        oc0.w = wz;
+        oc0.tmo_s = 5;
+        len = 65536 * 8 + d.pick("swarm.wrap.extra", &[5usize, 0, 8, 30]);
+        wrap_class = true;
     }
     let mut oc = oc0;
     for o in oc.opts.iter_mut() {
@@ -339,6 +352,12 @@ pub fn xfer(prop: &'static str, tier: Tier, w: &Arc<World>) -> Scn {
     xc.retries = 20;
     if xc_no_resend {
         xc.resend_request = false;
+    }
+    if wrap_class || full_window {
+        // a reader that acknowledges every block of a 4096-block window makes the sender resend the
+        // whole window 4096 times (legal, quadratic): not what these long runs are about
+        xc.per_block_ack = false;
+        xc.eager_reack = false;
     }
     let nblocks = (len / oc.b) as u32 + 1;
     let mut conformant = true;
@@ -403,6 +422,16 @@ pub fn xfer(prop: &'static str, tier: Tier, w: &Arc<World>) -> Scn {
                 fc.recv_err_w = if d.chance("swarm.fault.recv_err", 1, 4) { 40 } else { 0 };
                 fc.stall_w = if d.chance("swarm.fault.stall", 1, 5) { 10 } else { 0 };
                 fc.late_w = if d.chance("swarm.fault.lateness", 1, 3) { [2, 1, 1] } else { [1, 0, 0] };
+            }
+            if wrap_class {
+                // one loss, forced onto a datagram numbered around the wrap
+                fc.fate_w = [1, 0, 0, 0, 0, 0];
+                fc.recv_err_w = 0;
+                fc.stall_w = 0;
+                fc.budget = 0;
+                let op = if d.chance("swarm.wrap.ack", 1, 2) { 4u8 } else { 3u8 };
+                fc.forced.push((op, d.pick("swarm.wrap.number", &[0u16, 65535, 1]), crate::world::Fate::Drop));
+                faultfree = false;
             }
         }
         "C07" => {
@@ -521,5 +550,5 @@ pub fn xfer(prop: &'static str, tier: Tier, w: &Arc<World>) -> Scn {
     if let Some((bp, at)) = bystander {
         w.start_peer_at(bp, at);
     }
-    Scn { sandbox, desc, step_cap: 400_000, time_cap: 2_000_000 * SEC, faultfree }
+    Scn { sandbox, desc, step_cap: if wrap_class || full_window { 6_000_000 } else { 400_000 }, time_cap: 2_000_000 * SEC, faultfree }
 }
